@@ -108,11 +108,11 @@ class Node:
         pm = "[" + "; ".join("(%s, [%s])" % (zl(k), "; ".join(lis(l) for l in v)) for k, v in self.ep._prefix_map.items()) + "]"
         return "(mkEp %s %s %s)" % ("true" if self.ep.is_open() else "false", ls, pm)
 
-    def feed(self, data):
+    def feed(self, data, src=("9.9.9.9", 999)):
         """deliver one datagram through the production path; returns (escaped exception or None, events)"""
         del self.events[:]
         try:
-            self.ep.inject(("9.9.9.9", 999), data)
+            self.ep.inject(src, data)
             esc = None
         except Exception as e:   # noqa
             esc = type(e).__name__
@@ -386,6 +386,51 @@ async def _run(ctx, text):
             except Exception:   # noqa
                 pass
     ctx.extra["recv_shared_prefix_inputs"] = shared_n
+    # ---- datagrams from the address of a peer the receiver has known and then forgotten (the receive path consults the
+    #      peer graph by source address before anything else)
+    from ipv8.keyvault.crypto import default_eccrypto as _ec
+    from ipv8.peer import Peer as _Peer
+    stale_n = 0
+    for how in ("remove_by_address", "moved-then-remove_peer", "remove_peer", "replaced-by-new-object"):
+        net3 = simnet.SimNet()
+        n3 = Node(net3, ("10.0.8.1", 1000), overlay_classes())
+        src = ("10.0.8.%d" % (10 + stale_n % 200), 4321)
+        key = _ec.generate_key("curve25519").pub().key_to_bin()
+        for ov in n3.overlays:
+            p = _Peer(key, src)
+            ov.network.add_verified_peer(p)
+            ov.network.get_verified_by_address(src)          # what receiving a datagram from src does
+            if how == "remove_by_address":
+                ov.network.remove_by_address(src)
+            elif how == "moved-then-remove_peer":
+                p.add_address(("10.0.9.9", 77))
+                ov.network.remove_peer(p)
+            elif how == "remove_peer":
+                ov.network.remove_peer(p)
+            else:
+                ov.network.remove_peer(p)
+                ov.network.add_verified_peer(_Peer(key, ("10.0.9.8", 78)))
+        for ov in n3.overlays:
+            for data in (ov.get_prefix() + bytes([246]) + r.randbytes(60), ov.get_prefix(), ov.get_prefix() + b"\x01", r.randbytes(40)):
+                esc, evs = n3.feed(data, src)
+                stale_n += 1
+                ctx.count(("recv-stale", how, data), nontrivial=True)
+                meta = {"kind": "recv-stale", "how": how, "data": data.hex(), "src": list(src)}
+                if esc is not None:
+                    ctx.violation("escape/%s/forgotten-source" % esc, "%s escapes Endpoint.notify_listeners for a %d-byte datagram from the "
+                                  "address of a peer the receiver knew and forgot (%s)" % (esc, len(data), how), meta)
+                    continue
+                got = [e[1] for e in evs if e[0] == "delivered"]
+                missing = [i for i in n3.expected_listeners(data) if i not in got]
+                if missing:
+                    ctx.violation("not-delivered/overlay-with-that-prefix", "listeners %s not delivered to (datagram from a forgotten "
+                                  "peer's address, %s)" % (missing, how), meta)
+        for ov in n3.overlays:
+            try:
+                await ov.unload()
+            except Exception:   # noqa
+                pass
+    ctx.extra["recv_forgotten_source_inputs"] = stale_n
     ctx.extra["recv_inputs"] = len(inputs)
     ctx.extra["handler_entries"] = entered_n
     ctx.sample({"recv_input": inputs[len(inputs) // 3].hex(), "captured_example": captured[0].hex() if captured else None})
@@ -526,7 +571,10 @@ def replay(path):
     for v in js.get("violations", []):
         c = v["case"]
         print(v["key"], "::", v["what"])
-        if c["kind"] == "recv-shared":
+        if c["kind"] == "recv-stale":
+            print("  datagram from the address of a forgotten peer (%s):" % c["how"], c["data"][:60])
+            rc = 1
+        elif c["kind"] == "recv-shared":
             print("  overlays sharing a prefix:", c["overlays"], "datagram", c["data"][:60])
             rc = 1
         elif c["kind"] == "recv-gen":
